@@ -844,4 +844,6 @@ Idle == Len(w.stack) = 0
 (* named values for AppRegs (shared by MC.tla and TraceConf.tla) *)
 App_None == <<>>
 App_Three == << << <<"bc", 1>> >>, << <<"bc", 1>>, <<"eev", 1, 1>> >>, << <<"res", 1>>, <<"anyev", 1>> >> >>
+(* ... plus one whose only trigger dies with its entity (a persistent reactor must survive that) *)
+App_Four == << << <<"bc", 1>> >>, << <<"bc", 1>>, <<"eev", 1, 1>> >>, << <<"res", 1>>, <<"anyev", 1>> >>, << <<"eev", 2, 1>> >> >>
 =============================================================================
